@@ -44,7 +44,9 @@ func inPathEscape(e *Exec, args []Value, site *ssa.CallCommon) Value {
 		return tb.Ite(tb.Ult(n, tb.Const(8, 10)), tb.Add(n, tb.Const(8, '0')), tb.Add(n, tb.Const(8, 'A'-10)))
 	}
 	for _, c := range bs {
-		in := func(lo, hi byte) *Term { return tb.And(tb.Ule(tb.Const(8, uint64(lo)), c), tb.Ule(c, tb.Const(8, uint64(hi)))) }
+		in := func(lo, hi byte) *Term {
+			return tb.And(tb.Ule(tb.Const(8, uint64(lo)), c), tb.Ule(c, tb.Const(8, uint64(hi))))
+		}
 		keep := tb.Or(in('A', 'Z'), in('a', 'z'), in('0', '9'))
 		for _, k := range []byte("-_.~$&+=:@") {
 			keep = tb.Or(keep, tb.Eq(c, tb.Const(8, uint64(k))))
